@@ -53,6 +53,17 @@ def onZoned (op : Op) (args : List String) : String :=
     | .ok (.err e) => showErr e
   | _ => bad
 
+/-- value level, `SubsecRound`: `t` = NaiveTime `secs frac digits`, `n` = NaiveDateTime
+`yof secs frac digits`, `z` = DateTime<FixedOffset> `yof secs frac off digits` -/
+def onSub (round : Bool) (kind : String) (args : List String) : String :=
+  match kind, ints? args with
+  | "t", some [s, f, d] =>
+    showRes (fun t : Time => s!"{t.secs} {t.frac}") (time_subsecs round ⟨s, f⟩ d.toNat)
+  | "n", some [y, s, f, d] => showRes showDT (naive_subsecs round ⟨⟨y⟩, ⟨s, f⟩⟩ d.toNat)
+  | "z", some [y, s, f, o, d] =>
+    showRes (fun z : Zoned => s!"{showDT z.utc} {z.off}") (zoned_subsecs round ⟨⟨⟨y⟩, ⟨s, f⟩⟩, o⟩ d.toNat)
+  | _, _ => bad
+
 def onNs (op : Op) (stamp span : String) : String :=
   match optInt? stamp, optInt? span with
   | some st, some sp => showRes showRR (run op st sp)
@@ -71,6 +82,12 @@ def handle (op : String) (args : List String) : Option String :=
   | "rd.z.trunc", a => some (onZoned .trunc a)
   | "rd.z.round", a => some (onZoned .round a)
   | "rd.z.up", a => some (onZoned .up a)
+  | "rd.t.rsub", a => some (onSub true "t" a)
+  | "rd.t.tsub", a => some (onSub false "t" a)
+  | "rd.n.rsub", a => some (onSub true "n" a)
+  | "rd.n.tsub", a => some (onSub false "n" a)
+  | "rd.z.rsub", a => some (onSub true "z" a)
+  | "rd.z.tsub", a => some (onSub false "z" a)
   -- integer level: stamp|none span|none
   | "rd.ns.trunc", [s, p] => some (onNs .trunc s p)
   | "rd.ns.round", [s, p] => some (onNs .round s p)
